@@ -346,6 +346,13 @@ func updateReferences(st storage.Storer, req *packp.UpdateRequests, cmdStatus ma
 				continue
 			}
 
+			// As in canonical Git's receive-pack, never point a reference
+			// at an object the unpacked pack did not deliver.
+			if err := st.HasEncodedObject(cmd.New); err != nil {
+				setStatus(cmdStatus, firstErr, cmd.Name, ErrUpdateReference)
+				continue
+			}
+
 			ref := plumbing.NewHashReference(cmd.Name, cmd.New)
 			err := st.SetReference(ref)
 			setStatus(cmdStatus, firstErr, cmd.Name, err)
@@ -359,6 +366,11 @@ func updateReferences(st storage.Storer, req *packp.UpdateRequests, cmdStatus ma
 			setStatus(cmdStatus, firstErr, cmd.Name, err)
 		case packp.Update:
 			if !exists || !currentValueIs(st, cmd.Name, cmd.Old) {
+				setStatus(cmdStatus, firstErr, cmd.Name, ErrUpdateReference)
+				continue
+			}
+
+			if err := st.HasEncodedObject(cmd.New); err != nil {
 				setStatus(cmdStatus, firstErr, cmd.Name, ErrUpdateReference)
 				continue
 			}
